@@ -206,6 +206,7 @@ async def install_requirements(hass, config_entry, pyscript_folder):
     )
 
     requirements_to_install = {}
+    install_error = None
 
     if all_requirements and not config_entry.data.get(CONF_ALLOW_ALL_IMPORTS, False):
         _LOGGER.error(
@@ -281,18 +282,41 @@ async def install_requirements(hass, config_entry, pyscript_folder):
             "Installing the following packages: %s",
             str(requirements_to_install),
         )
-        await async_process_requirements(
-            hass,
-            DOMAIN,
-            [
-                (
-                    f"{package}=={pkg_info[ATTR_VERSION]}"
-                    if pkg_info[ATTR_VERSION] != UNPINNED_VERSION
-                    else package
-                )
-                for package, pkg_info in requirements_to_install.items()
-            ],
-        )
+        try:
+            await async_process_requirements(
+                hass,
+                DOMAIN,
+                [
+                    (
+                        f"{package}=={pkg_info[ATTR_VERSION]}"
+                        if pkg_info[ATTR_VERSION] != UNPINNED_VERSION
+                        else package
+                    )
+                    for package, pkg_info in requirements_to_install.items()
+                ],
+            )
+        except Exception as exc:
+            #
+            # some of the packages could have been installed before the failure; record
+            # those (and only those), then report the failure
+            #
+            install_error = exc
+
+            def installed_now(requirements):
+                done = {}
+                for package, pkg_info in requirements.items():
+                    version = get_installed_version(package)
+                    if version is None or version == pkg_info.get(ATTR_INSTALLED_VERSION):
+                        continue
+                    if pkg_info[ATTR_VERSION] in (UNPINNED_VERSION, version) or Version(
+                        pkg_info[ATTR_VERSION]
+                    ) == Version(version):
+                        done[package] = pkg_info
+                return done
+
+            requirements_to_install = await hass.async_add_executor_job(
+                installed_now, requirements_to_install
+            )
     else:
         _LOGGER.debug("No new packages to install")
 
@@ -310,3 +334,6 @@ async def install_requirements(hass, config_entry, pyscript_folder):
         new_data = config_entry.data.copy()
         new_data[CONF_INSTALLED_PACKAGES] = pyscript_installed_packages
         hass.config_entries.async_update_entry(entry=config_entry, data=new_data)
+
+    if install_error:
+        raise install_error
